@@ -95,7 +95,7 @@ def r1_dispatch(rule, root=None):
     payloads = dict(O.reg_variants(root))
     # the loop walks the tape in evaluation order
     loops = [l for l in A.find(fn["body"], "For") if any(n is ms[0] for n in A.walk(l["body"]))]
-    if len(loops) != 1 or A.unparse(loops[0]["iter"]).replace(" ", "") != "t.iter_asm()":
+    if len(loops) != 1 or A.ftxt(loops[0]["iter"]) != "t.iter_asm()":
         rule.bad("loop", "the dispatch loop must walk `t.iter_asm()` (evaluation order)", A.where(fn))
     else:
         rule.ok("dispatch walks t.iter_asm()")
